@@ -287,7 +287,7 @@ def nontrivial(cfg):
 
 
 # ------------------------------------------------------------------ judging
-def close(got, want, scale=None):
+def close(got, want, scale=None, tol_rel=None):
     """-> (ok, relative error)"""
     w = float(want)
     if not np.isfinite(got):
@@ -295,7 +295,7 @@ def close(got, want, scale=None):
     den = max(abs(w), float(scale) if scale is not None else 0.0)
     err = abs(got - w)
     rel = err / den if den > 0 else err
-    return err <= TOL_REL * den + TOL_ABS, rel
+    return err <= (TOL_REL if tol_rel is None else tol_rel) * den + TOL_ABS, rel
 
 
 def judge(cfg, method, aw, classes, stats=None):
@@ -316,7 +316,7 @@ def judge(cfg, method, aw, classes, stats=None):
                 % (name, shp, tuple(np.shape(build_arrays(cfg)[0])), tuple(np.shape(yhat)), tuple(wshape)))
     worst = 0.0
     for i, (g, w) in enumerate(zip(vals, want)):
-        ok, rel = close(g, w, scale)
+        ok, rel = close(g, w, scale, cfg.get("tol_rel"))
         worst = max(worst, rel if np.isfinite(rel) else 1e300)
         if not ok:
             return ("%s:value" % name,
@@ -512,6 +512,13 @@ def run(ck):
                          yhat=[1203456.4, 2499998.7, 730000.35, 1000001.2], spread_form="float", spread=kk, elementwise_rel=1e-6))
     cfgs.append(dict(cls="Poisson", layout="vec", dims=[3], y=[1203456.0, 2500001.0, 730000.0], yhat=[1203456.4, 2499998.7, 730000.35],
                      elementwise_rel=1e-6))
+    # nearly Poisson (k a hundred million times the counts); Poisson with predictions of a few 1e-9 (the start of an outbreak)
+    # (log-gamma differences at k = 1e7 carry an absolute error of a few 1e-8 in any double-precision formula: judged at 3e-7)
+    cfgs.append(dict(cls="NegBinom", layout="vec", dims=[4], y=[3.0, 7.0, 1.0, 9.0], yhat=[2.2, 15.5, 3.0, 31.0], spread_form="float", spread=2e7,
+                     tol_rel=3e-7))
+    cfgs.append(dict(cls="NegBinom", layout="vec", dims=[3], y=[3.0, 7.0, 40.0], yhat=[2.2, 15.5, 31.0], spread_form="array", spread=[2e7, 5e7, 2.5],
+                     tol_rel=3e-7))
+    cfgs.append(dict(cls="Poisson", layout="vec", dims=[3], y=[1.0, 2.0, 1.0], yhat=[3e-9, 1e-10, 4e-8], elementwise_rel=1e-9))
     # precise Gamma data and a prediction off by a factor of three; weights that average to one
     cfgs.append(dict(cls="Gamma", layout="vec", dims=[3], y=[3.0, 5.0, 2.0], yhat=[9.0, 1.7, 6.0], spread_form="float", spread=1000.0))
     for cls in ("Square", "Normal"):
@@ -554,7 +561,7 @@ def run(ck):
                     flat = vals
                     if len(mv) == len(flat):
                         for g, w in zip(flat, mv):
-                            okv, rel = close(g, w, None if method != "loss" else abs(w) + 1)
+                            okv, rel = close(g, w, None if method != "loss" else abs(w) + 1, cfg.get("tol_rel"))
                             nm = "%s.%s" % (cfg["cls"], method)
                             k_stats[nm] = max(k_stats.get(nm, 0.0), rel if np.isfinite(rel) else 1e300)
                             if not okv:
